@@ -148,34 +148,49 @@ def interferes(p, name):
 
 
 def lifetimes(sc, ans):
-    """Per stream: (name, version index at which this incarnation was created, program of that version,
-    deliveries it received until replaced/removed/end)."""
+    """Per stream incarnation: (name, version index at which it was created, program of that version,
+    deliveries it received until replaced/removed/end, last version index it lived in)."""
     cur = {s["name"]: (0, D.decl_key(s)) for s in sc["p0"]}
     live = {n: [] for n in cur}
     done = []
     v = 0
-    prog = sc["p0"]
     for st, a in zip(sc["steps"], ans["steps"]):
         if st["k"] == "reload":
-            v += 1
             new = st["prog"]
             newkeys = {s["name"]: D.decl_key(s) for s in new}
             for n in list(cur):
                 if n not in newkeys or newkeys[n] != cur[n][1]:
-                    done.append((n, cur[n][0], sc["versions"][cur[n][0]], live.pop(n)))
+                    done.append((n, cur[n][0], sc["versions"][cur[n][0]], live.pop(n), v))
                     del cur[n]
+            v += 1
             for n, k in newkeys.items():
                 if n not in cur:
                     cur[n] = (v, k)
                     live[n] = []
-            prog = new
         else:
             for d in a["trace"]:
                 if d["stream"] in live:
                     live[d["stream"]].append(d)
     for n in cur:
-        done.append((n, cur[n][0], sc["versions"][cur[n][0]], live[n]))
+        done.append((n, cur[n][0], sc["versions"][cur[n][0]], live[n], v))
     return done
+
+
+def dependency_recompiled(sc, name, v0, v1):
+    """A sequence step / join source naming another stream is resolved when the stream is compiled (the step
+    stands for that stream's source and first filter; a join listens to the stream's name or to its source).
+    If such a referenced stream is changed, added or removed by a reload during this incarnation's life, the
+    incarnation keeps its old compilation while the routing follows the new program. Its declaration did not
+    change, so the property says nothing about it; it cannot be compared with a fresh engine."""
+    spec = next(s for s in sc["versions"][v0] if s["name"] == name)
+    refs = list(spec.get("steps", [])) + [spec.get("l"), spec.get("r")] if spec["kind"] in ("seq", "join") else []
+    refs = [r for r in refs if r is not None]
+    for v in range(v0 + 1, v1 + 1):
+        old = {x["name"]: D.decl_key(x) for x in sc["versions"][v - 1]}
+        new = {x["name"]: D.decl_key(x) for x in sc["versions"][v]}
+        if any(old.get(r) != new.get(r) for r in refs):
+            return True
+    return False
 
 
 def scenario_request(sc, with_reloads=True):
@@ -233,7 +248,7 @@ def judge(sc, ans, twin, fresh_routes, replays):
         ri += 1
     # (3) every stream incarnation behaves like the same declaration in a fresh engine fed the same events
     lts = lifetimes(sc, ans)
-    for i, (name, v, prog, ds) in enumerate(lts):
+    for i, (name, v, prog, ds, v_end) in enumerate(lts):
         if i not in replays:
             continue
         rp = replays[i]
@@ -278,8 +293,8 @@ def run_scenarios(binpath, scs):
         rec = {"ans": a, "twin": ans[t] if t is not None else None,
                "fresh": [ans[i].get("routes", []) for i in fr], "replay_idx": {}}
         if D.answer_ok(a):
-            for i, (name, v, prog, ds) in enumerate(lifetimes(sc, a)):
-                if ds and not interferes(prog, name):
+            for i, (name, v, prog, ds, v_end) in enumerate(lifetimes(sc, a)):
+                if ds and not interferes(prog, name) and not dependency_recompiled(sc, name, v, v_end):
                     rec["replay_idx"][i] = len(reqs2)
                     reqs2.append({"vpl": D.vpl_program(prog), "steps": [{"k": "event", "e": d["event"]} for d in ds]})
         out.append(rec)
@@ -299,7 +314,7 @@ def model_expr(sc, rec):
             it.ty(s["name"])
             tbl.decl(s["name"], D.decl_key(s))
     a = rec["ans"]
-    for i, (name, v, prog, ds) in enumerate(lifetimes(sc, a)):
+    for i, (name, v, prog, ds, v_end) in enumerate(lifetimes(sc, a)):
         key = next(D.decl_key(s) for s in prog if s["name"] == name)
         d = tbl.decl(name, key)
         rp = rec["replays"].get(i)
